@@ -1035,6 +1035,10 @@ func TestVerif(t *testing.T) {
 	}
 	r := vlib.NewRand(env.Seed)
 	deadline := env.Deadline()
+	if raceEnabled {
+		deadline = time.Now().Add(time.Duration(env.BudgetMs/3) * time.Millisecond)
+		res.Count("race-detector-build")
+	}
 	max := 6000
 	if env.Thorough() || env.Deep {
 		max = 40000
@@ -1046,7 +1050,7 @@ func TestVerif(t *testing.T) {
 			break
 		}
 	}
-	if env.Thorough() {
+	if env.Thorough() && !raceEnabled {
 		res.Exhaustive = exhaustive(t, m, res, time.Now().Add(time.Duration(env.BudgetMs)*time.Millisecond))
 	}
 	res.Write(env.Out)
